@@ -240,7 +240,9 @@ class _PlainTime(object):
     return self._c.now
 
   def sleep(self, d):
-    self._c.sleep_until(self._c.now + max(d, 0))
+    if d < 0:
+      raise ValueError('sleep length must be non-negative')
+    self._c.sleep_until(self._c.now + d)
 
   def monotonic(self):
     return self._c.now
